@@ -5,6 +5,7 @@ CONSTANTS
   Froms = {"Empty", "OwnBare", "OwnFullSelf", "OwnFullOther", "Domain", "Contact", "ContactBare"}
   ExtSets = {"none", "default", "all", "allrev"}
   IdKinds = {"fresh", "dup", "empty"}
+  Peers = {}
   MaxHist = 99
 VIEW TourView
 ACTION_CONSTRAINT EmitBehaviour
